@@ -54,7 +54,7 @@ SPEC = dict(
     ),
     translators=[('ciphers.py + signature.py + keys.py glue->Generated/AdnlSrc.lean', adnlsrc.regenerate),
                  ('keys.py generator decision lines->Generated/MnemonicNew.lean', arith_adnl.regenerator('MnemonicNew'))],
-    lean_targets=['TonVerif.Proofs.SrcAdnl'],
+    lean_targets=['TonVerif.Proofs.SrcAdnl', 'TonVerif.Proofs.SrcAdnlLoop'],
     design_ref='DESIGN.md §6 C20',
     rule='channel case = (seed a, seed b, id variant: natural/swapped/equal/prefix/empty, plaintext length 0..4096 incl. block boundaries), both directions; '
          'self channel a=b; cipher-guard case = (key length, data length) around 16/20/32; sign case = (seed, message, one alteration of message/key/signature); '
